@@ -13,7 +13,7 @@ either sign, any payload), infinities, denormals and -0 are words like any other
 namespace PsV.Fits.Codec
 open PsV.Fits
 
-theorem be32_rd32 (a b c d : UInt8) : be32 (rd32 a b c d) = [a, b, c, d] := by
+theorem be32_rd32_bytes (a b c d : UInt8) : be32 (rd32 a b c d) = [a, b, c, d] := by
   have ha := a.toNat_lt; have hb := b.toNat_lt; have hc := c.toNat_lt; have hd := d.toNat_lt
   have hn : (rd32 a b c d).toNat = a.toNat * 16777216 + b.toNat * 65536 + c.toNat * 256 + d.toNat := by
     simp only [rd32, UInt32.toNat_ofNat']; omega
@@ -31,7 +31,7 @@ theorem dec32_bytes : ∀ (n : Nat) (r : Bytes) (d : List UInt32), dec32 n r = s
     obtain ⟨d', hd', rfl⟩ := h
     obtain ⟨h1, h2⟩ := dec32_bytes n r d' hd'
     refine ⟨by simp [h1], ?_⟩
-    rw [enc32, be32_rd32, h2, show 4 * (n+1) = 4 * n + 4 by omega]
+    rw [enc32, be32_rd32_bytes, h2, show 4 * (n+1) = 4 * n + 4 by omega]
     simp [List.take_succ_cons]
   | n+1, [], d, h => by simp [dec32] at h
   | n+1, [_], d, h => by simp [dec32] at h
